@@ -9,15 +9,39 @@ META = {"C11": {
     "technique": "executable TLA+ specification of the XOR metric over SHA-256 digests (byte-wise Bitwise xor, lexicographic order); TLC checks the metric laws on a small digest universe, enumerates the input partition, and is the oracle over recorded real calls",
     "text": "Every recorded call of NetworkAddress::distance / convert_distance_to_u256 (both directions, typed and raw-key forms), sort_peers_by_address, the replication range filter and "
             "Node::calculate_get_closest_peers is compared by TLC with the specification's value computed from digests the driver derives itself (sha2), over the TLC-enumerated partition "
-            "(address kind x set size 0,1,4,5,6,21 x count x range class x near/far) and random mixed-kind pairs. The store's and the fetcher's range decisions are checked in their own areas with the same independent ranking.",
+            "(address kind x set size 0,1,4,5,6,21 x count x range class x near/far) and random mixed-kind pairs. The fetcher's closeness decisions (which queued records are started first, range and fullness filters) are judged on ordering-stress runs of the real fetcher "
+            "(dozens of queued entries, the closest not startable) by the fetcher's trace specification against the same independent ranking; the store's range decisions are checked in its own area.",
     "note": "trusted: TLC incl. CommunityModules Bitwise; sha2 crate; all addresses cannot be enumerated: members of each class are seeded random, near pairs are neighbours in digest order among 3000 random addresses (2-3 shared leading bytes)",
     "design_ref": "5 Area Distance"}}
+
+
+# closeness decisions of the replication fetcher (ordering by distance, range filter, fullness limit), judged by the
+# fetcher's trace specification against the driver's independent SHA-256 / XOR ranking
+FETCHER_CLOSENESS = {"C08_ClosestFirst": "C11_ClosenessDecision(fetcher order)", "C08_BatchInRange": "C11_ClosenessDecision(fetcher range)",
+                     "C08_FullLimit": "C11_ClosenessDecision(fetcher farthest)"}
+
+
+def fetcher_closeness(v, w, thorough, scn_path=None, stress_index=None, stress_seed=None):
+    from areas import replfetcher
+    found, nsteps, _drift = replfetcher.wide_run(w, thorough, scn_path, stress_index, stress_seed)
+    for clause, msg, payload in found:
+        if clause in FETCHER_CLOSENESS:
+            payload = dict(payload, area="distance", fetcher=True)
+            v.violation(FETCHER_CLOSENESS[clause], msg, payload)
+    v.cov["fetcher_closeness_steps"] = nsteps
+    return nsteps
 
 
 def run(prop, tier, replay=None):
     v = Verdict(prop, tier, replaying=replay is not None)
     w = workdir(prop)
     thorough = tier == "thorough"
+    if replay and replay.get("fetcher"):
+        build(PACKAGES)
+        scn = os.path.join(w, "scenarios.ndjson")
+        write_ndjson(scn, [replay["scenario"]])
+        fetcher_closeness(v, w, False, scn, replay.get("stress_index"), replay.get("seed"))
+        return v.finish()
     cases = os.path.join(w, "cases.ndjson")
     mc = tlc("distance", "MCDistance", "MCDistance.cfg", w, env={"CASES": cases}, workers=8, timeout=1200)
     if mc.violated:
@@ -36,7 +60,8 @@ def run(prop, tier, replay=None):
             raise ToolError("malformed trace line %d" % x["line"])
         v.violation(x["clause"], "%s at line %d: %s" % (e["ev"], x["line"], json.dumps({k: e[k] for k in e if k not in ("peers",)})[:500]),
                     {"area": "distance", "case": {"kind": "chunk", "size": len(e.get("peers", [])), "count": e.get("n", 5), "range": "equal", "near": False}, "event": e})
-    v.cov["evaluations"] = len(events)
+    nfetch = 0 if replay else fetcher_closeness(v, w, thorough)
+    v.cov["evaluations"] = len(events) + nfetch
     v.cov["distinct_nontrivial"] = len(set(json.dumps([e["ev"], e.get("a"), e.get("b"), e.get("target"), e.get("n"), e.get("range")]) for e in events))
     v.cov["traces_validated_against_impl"] = 1
     v.cov["rule"] = "a case is one real call with concrete addresses; distinct = distinct (call, digests, count, range); every call compares a real result with the specification's value"
